@@ -245,6 +245,15 @@ func TestVerifC08(t *testing.T) {
 			}
 			sortSteps(c.Steps)
 		}
+		switch i % 10 {
+		case 3, 4: // the interface is not forwarding at all
+			c.Fwd = false
+		case 7, 8: // forwarding is switched off shortly before the stop: hosts hold a default route
+			if c.StopAt > 2*time.Second && c.StopHook == "" {
+				c.Steps = append(c.Steps, advStep{At: c.StopAt - time.Duration(1+rr.Int63n(int64(time.Second))), Kind: "fwd", On: false})
+				sortSteps(c.Steps)
+			}
+		}
 		if !r.Mine(c.ID) {
 			continue
 		}
